@@ -9,7 +9,7 @@ CHECKS = {
                      "tests a closed interval; for one rule per pest operator form (optimizer on and off, counted repetitions) the type rustc "
                      "assigned to the derive output maps to the class tree of the operator expression with children in grammar order; every "
                      "ASCII built-in has exactly the intervals of pest_generator's own table and NEWLINE the same strings in a prefix-consistent "
-                     "order; every pest Unicode property has a node testing the predicate of the same name. Acceptance/offsets on inputs are not decided.",
+                     "order; every pest Unicode property has a node testing the predicate of the same name. Acceptance/offsets on inputs are not decided. Also: the check twin of every node equals its parse twin (atomic rules and predicates recognise through check twins); Input::next consumes exactly the character it returns.",
                 note="pest_generator's table and PEG semantics of pest's operators (fixture expectations) are the oracle; pest's optimizer and Stack are trusted (known Stack defect listed in evidence).",
                 ref="§4 C01"),
     "C02": dict(level="other", tech="typed-HIR walk of every Pairs/Pair impl: ordered forward list vs child-bearing fields; look-ahead classified by effect tree",
@@ -17,7 +17,7 @@ CHECKS = {
                      "forwards each child-bearing field exactly once in declaration order (Skipped: skipped then matched), choices forward the "
                      "matched variant's payload, look-ahead nodes (class POS/NEG by their effect trees) forward nothing, silent rules forward "
                      "content, other rules emit exactly themselves, (compound-)atomic rules report no children, as_token/to_thin copy rule/span/children "
-                     "(resolved-term comparison), and container nodes store the node of every child that matched (tokens come from stored nodes).",
+                     "(resolved-term comparison), and container nodes store the node of every child that matched (tokens come from stored nodes). Also: the generated rule structs of every kind under both generators emit / forward as their kind says (R02-KIND); check twins equal parse twins (spans of atomic rules come from check twins).",
                 note="Does not decide equality with pest's tree on inputs or span values.",
                 ref="§4 C02"),
     "C03": dict(level="other", tech="twin equality of effect decision trees built from typed HIR (path-sensitive abstract evaluation, helpers inlined)",
@@ -79,7 +79,7 @@ CHECKS = {
                      "(locals resolved) and dominating guards, against a reviewed discharge table; unsafe fns and callers of cursor() are confined; "
                      "(2) all 3260 function bodies are normal-form equal between debug and release builds, and the only cfg!(debug_assertions) "
                      "switch allowed is checked/unchecked slicing of one range in get(); (3) every panic-capable, debug-assert and usize-subtraction "
-                     "site reachable from the entry points and Tracker::collect is discharged by exact key. Does not prove panic-freedom.",
+                     "site reachable from the entry points and Tracker::collect is discharged by exact key. Does not prove panic-freedom. Also: the safe constructors of Span / Position and the line helpers the error report slices with are pest's (the invariants the unchecked slices and the report rely on).",
                 note="Discharge reasons are reviewed arguments (tables/discharge_*.json), several rest informally on the cursor invariant; external crates trusted.",
                 ref="§4 C09; §3.7"),
     "C10": dict(level="other", tech="finite-domain evaluation of the tracker's decision functions from typed HIR; effect-tree rules for polarity and recording scopes; call-graph inventory",
@@ -116,7 +116,7 @@ CHECKS = {
     "C13": dict(level="translation_validation", tech="sibling normal-form equality of typed HIR (repo copy vs pest source)",
                 text="Translation validation: Span::{new,get,start,end,start_pos,end_pos,split,as_str,get_input,lines,lines_span}, "
                      "merge_spans, LinesSpan/Lines::next, PartialEq/Hash of Span and Position are the same programs as pest's; no crate-local trait "
-                     "shadows them in method-call syntax and calls inside pest_typed resolve to them.",
+                     "shadows them in method-call syntax and calls inside pest_typed resolve to them. The two Position helpers LinesSpan::next cuts lines with are compared as well.",
                 note="Same trusted base as C12.",
                 ref="§4 C12,C13; §3.4"),
     "C14": dict(level="other", tech="call-graph inventory of panic/usize-subtraction sites with exact-key discharge table; match-table read-off; must-pass-through rule",
@@ -147,7 +147,7 @@ CHECKS = {
                      "and reduced boxing: a getter exists exactly for the rules mentioned outside negative predicates; its return type is the "
                      "Option/Vec/tuple nesting of the mentions found in the rule's content type (nested options flattened); every leaf of the getter "
                      "body, evaluated as a projection, denotes the position of the i-th mention in grammar order; the two Generate impls build "
-                     "getters identically for shared operators, also in a grammar-extras build (node tags).",
+                     "getters identically for shared operators, also in a grammar-extras build (node tags). Variant _k of ChoiceN holds the k-th parameter (C17's instances); silent rules with mentions are among the fixture rules.",
                 note="Sampled over fixture grammars; expectations are computed from the emitted content type, not from the generator's getter code.",
                 ref="§4 C16"),
     "C17": dict(level="other", tech="item-table and accessor-body rules (preconditions of parametricity), child order in effect trees, leaf payload data-flow",
@@ -156,20 +156,20 @@ CHECKS = {
                      "return content.0..n-1 in order; alternatives/elements are tried in parameter order and alternative k is stored in variant _k; "
                      "NEWLINE kind per literal, CharRange/ANY/Unicode content is the char read by the advancing primitive, Insens/PEEK/Skip spans are "
                      "span(start, end), POP's span is the popped span, repetition iterators walk content in order; every Input::next hands out the "
-                     "character it read before moving the cursor; containers store every matched child.",
+                     "character it read before moving the cursor; containers store every matched child. Built-in range aliases list their alternatives in pest's order; get() slices from the cursor in both profiles; Input::next hands out exactly the consumed character.",
                 note="match_choices! and generated arities >= 12 are exercised through fixtures only.",
                 ref="§4 C17"),
     "C18": dict(level="other", tech="impl-table rules: field coverage of hand-written eq/hash, derived impls elsewhere, state scan of the runtime crate",
                 text="Partial: every hand-written PartialEq::eq / Hash::hash (SeqN, Span, Position) touches exactly the type's fields, eq and hash "
                      "the same ones; every other node type has derived Clone/PartialEq/Hash; pest_typed has no static, thread-local, hash-ordered "
-                     "collection, interior-mutability or environment access; entry methods build a fresh Stack and Tracker.",
+                     "collection, interior-mutability or environment access; entry methods build a fresh Stack and Tracker. Hand-written eq is a conjunction of field equalities; hand-written Debug (structs and ChoiceN) shows every data field / labels each variant with its own name.",
                 note="'Equal exactly when same Debug rendering' on values is not decided.",
                 ref="§4 C18"),
     "C19": dict(level="other", tech="effect-decision-tree rules: loop range, lower-bound guard, success counting; alias type structure",
                 text="RepeatMin/RepeatMinMax/AtomicRepeat (TypedNode and NeverFailedTypedNode impls, both twins): loop over 0.. / 0..MAX, one unit "
                      "per iteration, success carries the unit's cursor, failure fails iff i < MIN else stops with the pre-iteration cursor, i counts "
                      "successes, never-failing impls only for MIN = 0; [T;N], (T1,T2), Option<T>, SkipChar<N> have the shapes they denote; the "
-                     "RepExact/RepMin/RepMinMax/Rep/RepOnce aliases route their bounds to the right const parameters; twins equal.",
+                     "RepExact/RepMin/RepMinMax/Rep/RepOnce aliases route their bounds to the right const parameters; twins equal. Skip (the optimizer's form of `(!(s|..) ~ ANY)*`) always succeeds with the cursor skip_until left, both twins.",
                 note="Generic children obey their contracts; decides structure of generic code, not behaviour on inputs.",
                 ref="§4 C19"),
     "C20": dict(level="other", tech="resolved-call scan for nondeterminism; sibling normal-form equality of the two Generate impls; rustc on fixture matrices; type-level facts per rule across option sets",
@@ -178,7 +178,7 @@ CHECKS = {
                      "operator variant (optimizer on/off), for recursive grammars with box_only_if_needed and under option combinations (9 quick / 64 "
                      "thorough); across option sets with the same optimizer setting every rule keeps class tree, atomicity constants and emission, "
                      "only boxing/accessors differ. Reports the known finding (undefined RepExact/RepMin/RepMax names). Optimizer on/off language "
-                     "equivalence is not decided.",
+                     "equivalence is not decided. The optimizer's Skip form reads no further than the loop it replaces (C08's bound instances); grammars that shadow built-ins compile.",
                 note="pest's optimizer trusted; option effects decided on fixture grammars at type level.",
                 ref="§4 C20; §5.3"),
 }
